@@ -117,7 +117,12 @@ class Gen:
             return self.pick([["attr", N("d1"), "a"], ["item", N("d1"), C("items")],
                               ["attr", N("o1"), "both"], ["item", N("o1"), C("both")],
                               ["attr", N("o1"), "k"], ["item", N("o1"), C("a")],
-                              ["attr", N("d1"), "k"], ["item", N("d1"), C("0")]])
+                              ["attr", N("d1"), "k"], ["item", N("d1"), C("0")],
+                              # attribute syntax prefers the attribute: d1 HAS a key "items",
+                              # d1.items is still the dict method
+                              ["filter", ["filter", ["call", ["attr", N("d1"), "items"], [], []], "list", [], []],
+                               "length", [], []],
+                              ["call", ["attr", N("d1"), "get"], [C(self.pick(["a", "items", "zz"])), self.int_(0)], []]])
         if k < 0.88:
             return ["filter", self.undef_(d - 1), "default", [self.int_(d - 1)], []]
         if k < 0.92:
@@ -240,6 +245,8 @@ class Gen:
             return ["filter", ["call", N("range"), [C(r.choice([0, 1, 2, 3, 4]))], []], "list", [], []]
         if k < 0.9:
             return ["tuple", [self.int_(d - 1) for _ in range(r.randint(1, 3))]]
+        if k < 0.94:
+            return ["filter", ["call", ["attr", N("d1"), "values"], [], []], "list", [], []]
         return ["cond", self.list_int(d - 1), self.bool_(d - 1), self.list_int(d - 1)]
 
     def list_int_strict(self, d):
